@@ -13,7 +13,7 @@ the sub-strategies' steps changes the world only through booked battery calls.
 Not proved here (see notes): the equality "station entry at the connector = station power" as an invariant of the
 complete step (it needs a key-frame lemma for the shared greedy / balanced model).
 -/
-import SpiceEv.Proofs.StratDistributedStation
+import SpiceEv.Proofs.StratDistributedBooked
 set_option linter.unusedSectionVars false
 set_option linter.unusedVariables false
 namespace SpiceEv
@@ -107,6 +107,7 @@ theorem C06_distributed_virtual_moved {B : Type} (dops : DOps α B) (saved : α)
 theorem C06_distributed_limits_restored {B : Type} (dops : DOps α B) (law : BatLaw dops.bat)
     (hex : UnloadExact dops.bat) (htot : AvailTotal dops.bat) (de : DEnv α)
     (hed : 0 ≤ de.deps.eps) (heo : 0 ≤ de.opps.eps) (he : 0 ≤ de.env.eps)
+    (hd : de.deps.ps = none) (ho : de.opps.ps = none)
     (s s' : DState α B) (cmds : List (String × α))
     (hgb : ∀ g, ((sdGet s.init.gcBattery g).getD []).Nodup)
     (hmin : ∀ b ∈ s.world.batteries, 0 ≤ b.minChargingPower)
@@ -137,12 +138,44 @@ theorem C06_distributed_limits_restored {B : Type} (dops : DOps α B) (law : Bat
             obtain ⟨rfl, _⟩ := h
             have hinv0 : StepInv s.world s.init.gcBattery (resetStations s.world, s.init, []) :=
               ⟨h0, sameMeta_of_gcs_eq rfl, rfl, hmin, rfl⟩
-            have hinv1 := stepGc_fold dops law hex htot de hed heo s.numberCs connected lk s.world
+            have hinv1 := stepGc_fold dops law hex htot de hed heo hd ho s.numberCs connected lk s.world
               s.init.gcBattery hgb _ _ (w1, ini1, c1) hinv0 hfold
             obtain ⟨_, same2, _⟩ := distributeSurplusOn_inv dops.bat law de.env he w1 w2 ids c2 hinv1.ok hsur
             intro g' hg'
             obtain ⟨g, hg, e1, _, e3⟩ := (hinv1.same.trans same2) g' hg'
             exact ⟨g, hg, e1, e3⟩
+
+/-- **The delegated step books every station's power at its connector.** Whenever a greedy / balanced sub-strategy
+step runs on a (virtual) world in which no connector carries an entry under one of its stations' ids — the base step
+removed the station entries, `Distributed.step` reset the station powers — and no battery id is a station id, then
+afterwards every station's entry at its connector equals the station's power (`Booked`).  By
+`C14_distributed_deps_is_substep` / `…_opps_is_substep` this is the state of a connector's virtual world when its
+treatment hands the objects back. -/
+theorem C06_distributed_substep_booked {B : Type} (rule : Rule) (ops : BatOps α B) (law : BatLaw ops)
+    (env : StratEnv α) (w w' : SWorld α B) (cmds : List (String × α))
+    (hno : ∀ s ∈ w.stations, ∀ g ∈ w.gcs, g.id = s.parent → (sdGet g.loads s.id).getD 0 = 0)
+    (hd : ∀ s ∈ w.stations, ∀ b ∈ w.batteries, s.id ≠ b.id)
+    (h : ruleStep rule ops env w = .ok (w', cmds)) :
+    ∀ s ∈ w'.stations, ∀ g ∈ w'.gcs, g.id = s.parent → (sdGet g.loads s.id).getD 0 = s.currentPower :=
+  (ruleStep_booked rule ops law env w w' cmds hno hd h).1
+
+/-- **The final surplus pass keeps "station entry = station power".** -/
+theorem C06_distributed_final_pass_keeps_booked {B : Type} (ops : BatOps α B) (law : BatLaw ops)
+    (env : StratEnv α) (w w' : SWorld α B) (ids : List String) (cmds' : List (String × α))
+    (hb : ∀ s ∈ w.stations, ∀ g ∈ w.gcs, g.id = s.parent → (sdGet g.loads s.id).getD 0 = s.currentPower)
+    (hd : ∀ s ∈ w.stations, ∀ b ∈ w.batteries, s.id ≠ b.id)
+    (h : distributeSurplusOn ops env w ids = .ok (w', cmds')) :
+    ∀ s ∈ w'.stations, ∀ g ∈ w'.gcs, g.id = s.parent → (sdGet g.loads s.id).getD 0 = s.currentPower :=
+  (distributeSurplusOn_booked ops law env w w' ids cmds' ⟨hb, hd⟩ h).1
+
+/-- Non-vacuity of the two booking theorems: after the step on `toyState` (whose connectors carry no station
+entries before) every station's entry equals its power: CS_v1_opps 11 = 11, CS_v2_deps 11 = 11. -/
+example : (match step (toyDOps 5) toyEnv toyState with
+    | .ok (s', _) => s'.world.stations.map (fun (st : StationS ℚ) =>
+        (st.currentPower, (s'.world.gcs.filter (fun g => g.id == st.parent)).map
+          (fun (g : GcS ℚ) => (sdGet g.loads st.id).getD 0)))
+    | .error _ => []) = [(11, [11]), (11, [11])] := by
+  decide +kernel
 
 /-- Non-vacuity (support booking): in `toyState` the battery BAT supports GC1 — after the step the connector carries
 the entry `("BAT", −5)` next to `("CS_v1_opps", 11)`, and its limit is 10 again. -/
